@@ -55,6 +55,7 @@ TwirpName(c) ==
 -----------------------------------------------------------------------------
 (* State of one RPC *)
 NoRet == [code |-> -1, msg |-> <<>>, det |-> 0]
+AnyError == -2      \* "some non-OK code"
 
 \* c: the case (proto, shape, sizes of client messages, limits, truncation)
 Start(c) ==
@@ -87,15 +88,18 @@ Apply(c, s, a) ==
          ELSE [Flush([s EXCEPT !.hdrPend = Join(@, a.md)]) EXCEPT !.hdrRes = Append(s.hdrRes, "")]
     [] a.op = "settrl" -> [s EXCEPT !.trl = Join(@, a.md)]
     [] a.op = "recv" ->
-         IF s.recvEnd # "none" THEN [s EXCEPT !.recvRes = Append(@, RR(0, s.recvEnd))]
-         ELSE IF s.inq # <<>> THEN
-           LET i == Head(s.inq) IN
-           IF c.maxrecv > 0 /\ c.sent[i] > c.maxrecv
-           THEN [s EXCEPT !.recvEnd = "error", !.recvRes = Append(@, RR(0, "error"))]
-           ELSE [s EXCEPT !.inq = Tail(@), !.recvd = Append(@, i), !.recvRes = Append(@, RR(i, "ok")),
-                          !.stats = Append(@, "inpayload")]
-         ELSE IF c.trunc THEN [s EXCEPT !.recvEnd = "error", !.recvRes = Append(@, RR(0, "error"))]
-         ELSE [s EXCEPT !.recvEnd = "eof", !.recvRes = Append(@, RR(0, "eof"))]
+         LET r == IF s.recvEnd # "none" THEN [s EXCEPT !.recvRes = Append(@, RR(0, s.recvEnd))]
+                  ELSE IF s.inq # <<>> THEN
+                    LET i == Head(s.inq) IN
+                    IF c.maxrecv > 0 /\ c.sent[i] > c.maxrecv
+                    THEN [s EXCEPT !.recvEnd = "error", !.recvRes = Append(@, RR(0, "error"))]
+                    ELSE [s EXCEPT !.inq = Tail(@), !.recvd = Append(@, i), !.recvRes = Append(@, RR(i, "ok")),
+                                   !.stats = Append(@, "inpayload")]
+                  ELSE IF c.trunc THEN [s EXCEPT !.recvEnd = "error", !.recvRes = Append(@, RR(0, "error"))]
+                  ELSE [s EXCEPT !.recvEnd = "eof", !.recvRes = Append(@, RR(0, "eof"))] IN
+         \* a method without a client stream reads its one request before the handler body runs: if that read
+         \* fails the call ends there with an error (AnyError: the code is the transport's choice)
+         IF ~ClientStreams(c.shape) /\ r.recvEnd # "none" THEN [r EXCEPT !.ret = [code |-> AnyError, msg |-> <<>>, det |-> 0]] ELSE r
     [] a.op = "send" ->
          LET j == s.nsend + 1
              \* a unary method only produces its reply here; it is sent (and the headers with it) on return
